@@ -687,6 +687,8 @@ class Interp:
             raise Unsupported("attribute %s of exception" % name)
         if hasattr(v, "ext_getattr"):
             return v.ext_getattr(self, name)
+        if isinstance(v, NativeFn) and getattr(v, "pytype", None) == "dict" and name == "fromkeys":
+            return NativeFn("dict.fromkeys", _dict_fromkeys)
         if isinstance(v, (PList, PDict, PSet, str, tuple)):
             native = list if isinstance(v, PList) else dict if isinstance(v, PDict) else set if isinstance(v, PSet) else type(v)
             if not hasattr(native, name):
@@ -1860,6 +1862,21 @@ class Interp:
 
         @reg("sorted")
         def _sorted(I, a, k):
+            from .absdom import AList
+
+            if isinstance(a[0], AList) and k.get("key") is None:
+                # an abstract list of objects: sorting compares two of them as soon as there are two; objects whose class
+                # defines no ordering (Var, terms) make that a TypeError
+                lst = a[0]
+                e1 = z3.Const(I.ctx.fresh_name("s"), lst.sort)
+                e2 = z3.Const(I.ctx.fresh_name("s"), lst.sort)
+                sample = lst.wrap(e1)
+                if isinstance(sample, Obj) and sample.cls.lookup("__lt__")[0] is None:
+                    two = z3.Or(z3.Exists([e1, e2], z3.And(to_bool(lst.mem(e1)), to_bool(lst.mem(e2)), e1 != e2)), z3.Exists([e1], to_bool(lst.dup(e1))))
+                    if I.ctx.branch(two, "sorted.two_elements"):
+                        I.raise_native(TypeError, None, "'<' not supported between instances")
+                    return lst
+                raise Unsupported("sorted() of an abstract list")
             items = I.iter_values(a[0])
             return I.new_list(I.sort_values(items, k.get("key"), k.get("reverse", False)))
 
@@ -2027,6 +2044,38 @@ class _PositiveLen:
 
     def ext_truthy(self, I, label):
         return True
+
+
+class _KeysOnlyDict:
+    """dict.fromkeys(iterable): the distinct keys in first-occurrence order (key equality may be symbolic: every
+    comparison forks); only iteration, len() and truth are supported - nothing reads the (None) values."""
+
+    def __init__(self, keys):
+        self.keys = keys
+
+    def ext_iter(self, I):
+        return list(self.keys)
+
+    def ext_len(self, I):
+        return len(self.keys)
+
+    def ext_truthy(self, I, label):
+        return bool(self.keys)
+
+    def ext_getattr(self, I, name):
+        raise Unsupported("dict.fromkeys(...).%s" % name)
+
+
+def _dict_fromkeys(I, a, k):
+    if len(a) != 1 or k:
+        raise Unsupported("dict.fromkeys with a value")
+    keys = []
+    for x in I.iter_values(a[0]):
+        if isinstance(x, (PList, PDict, PSet)):
+            I.raise_native(TypeError, None, "unhashable type")
+        if not any(I.truthy(I.py_eq(x, y), "fromkeys.same_key") for y in keys):
+            keys.append(x)
+    return _KeysOnlyDict(keys)
 
 
 class _PyType:
